@@ -87,6 +87,8 @@ func cmdCheck(args []string) int {
 	tier := fs.String("tier", "quick", "quick|thorough")
 	timeout := fs.Int("timeout", 30, "per-solver timeout in seconds")
 	jobs := fs.Int("j", 8, "parallel obligations (each races three solvers)")
+	noHints := fs.Bool("no-hints", false, "never try the recorded unsat-core hints first")
+	record := fs.Bool("record-hints", false, "record unsat cores of discharged obligations under /verif/hints")
 	fs.Parse(args)
 	if *prop == "" {
 		fmt.Fprintln(os.Stderr, "check: -p Cxx required")
@@ -177,7 +179,22 @@ func cmdCheck(args []string) int {
 	defer os.RemoveAll(tmp)
 	solvers := []string{"z3-new", "z3", "cvc5"}
 	opts := RunOpts{TimeoutS: *timeout, Solvers: solvers, TmpDir: tmp, Jobs: *jobs, KeepDir: os.Getenv("GOVC_KEEPDIR")}
+	if *tier == "thorough" {
+		*noHints = true
+		if opts.TimeoutS < 60 {
+			opts.TimeoutS = 60
+		}
+	}
+	if !*noHints && os.Getenv("GOVC_NOHINTS") == "" {
+		opts.Hints = NewHintDB()
+		opts.Record = *record
+	}
 	Discharge(vcs, opts)
+	if opts.Hints != nil && opts.Record {
+		if err := opts.Hints.Save(); err != nil {
+			fmt.Fprintln(os.Stderr, "govc: cannot save hints:", err)
+		}
+	}
 
 	perBackend := map[string]int{}
 	solverTime := 0.0
@@ -188,6 +205,7 @@ func cmdCheck(args []string) int {
 	defaulted := map[string]bool{}
 	var notes []string
 	covers := 0
+	nHinted := 0
 	for _, vc := range vcs {
 		funcs = append(funcs, fmt.Sprintf("%s (%d obligations)", vc.key, len(vc.obls)))
 		for k := range vc.assumed {
@@ -213,6 +231,9 @@ func cmdCheck(args []string) int {
 			if o.OK {
 				nOK++
 				perBackend[o.Result.Solver]++
+				if o.Hinted {
+					nHinted++
+				}
 				if len(samples) < 6 {
 					samples = append(samples, map[string]string{"obligation": o.Name, "where": o.Where, "goal": o.Desc, "result": "unsat by " + o.Result.Solver})
 				}
@@ -304,12 +325,13 @@ func cmdCheck(args []string) int {
 			"solver_time_s":            round2(solverTime),
 			"load_ssa_s":               round2(loadS),
 			"cover_queries":            covers,
+			"discharged_on_hint_slice": nHinted,
 			"slowest_discharged":       slowest,
 			"out_of_reach":             outOfReach,
 			"samples":                  samples,
 			"known_findings_seen":      knownSeen,
 			"notes":                    notes,
-			"explanation":              "every obligation is an SMT query generated from the go/ssa form of /repo's current sources and the //@ contracts; discharged = unsat",
+			"explanation":              "every obligation is an SMT query generated from the go/ssa form of /repo's current sources and the //@ contracts; discharged = unsat. Back ends suffixed +hint refuted the query restricted to the hypotheses of a recorded unsat core (a subset of the full query's hypotheses, so the refutation is valid for the full query); all others refuted the full query",
 		},
 		"assumptions": as,
 		"wall_s":      round2(wall),
